@@ -170,7 +170,12 @@ def _task_data(task, fail=None):
     d['err'] = [_blob(getattr(a, 'err', None)) for a in acts]
     if fail is not None:
         try:
-            d['fail'] = [type(fail).__name__, _blob(getattr(fail, 'message', None)), _blob(fail.get_msg())]
+            if type(fail).__name__ == 'UnmetDependency':
+                # produced by the main process; lists the failed dependencies in the order their results arrived
+                # (once per edge kind), a set in the sense of the property: compared as a sorted set
+                d['fail'] = ['UnmetDependency', sorted(set(str(getattr(fail, 'message', '')).split()))]
+            else:
+                d['fail'] = [type(fail).__name__, _blob(getattr(fail, 'message', None)), _blob(fail.get_msg())]
         except Exception as ex:  # noqa
             d['fail'] = ['unreadable', type(ex).__name__]
     return d
@@ -476,7 +481,7 @@ def gen_b(rng, runner='serial', nproc=0):
         ga.append(['sizes', 'parts', 'size'])
     if rng.random() < 0.7:
         ga.append(['sv', 'solo', rng.choice(['s', 'k'])])
-    if rng.random() < 0.3:
+    if rng.random() < 0.3 and not delayed_parts:
         ga.append(['pp', 'parts:p0', 'u'])
     tasks.append(_bt('total', 4, actions=[_act(ret='dict', write=True, echo_got=True, vals={'done': 1}, out='total out')],
                      getargs=ga, targets=['total.json'], result_dep=(['solo'] if rng.random() < 0.4 else []),
@@ -1119,10 +1124,10 @@ def plan(ctx, scale=1.0):
     quick = ctx.tier == 'quick'
     rng = ctx.rng
     b = ctx.boost * scale
-    n_a_thr = int((60 if quick else 900) * b)
-    n_b_thr = int((24 if quick else 300) * b)
-    n_a_proc = int((5 if quick else 60) * min(b, 2))
-    n_b_proc = int((8 if quick else 90) * min(b, 2))
+    n_a_thr = int((130 if quick else 1200) * b)
+    n_b_thr = int((60 if quick else 500) * b)
+    n_a_proc = int((8 if quick else 80) * min(b, 2))
+    n_b_proc = int((16 if quick else 160) * min(b, 2))
     pool = [(rng.randrange(1 << 60), 'A', ['thread', 'thread']) for _ in range(n_a_thr)] + \
            [(rng.randrange(1 << 60), 'B', ['thread']) for _ in range(n_b_thr)]
     rng.shuffle(pool)
